@@ -35,7 +35,7 @@ def signature(f):
 
 
 def run(ctx):
-    n = 480 if ctx.quick else 10000
+    n = 480 if ctx.quick else 5000
     ctx.tlc("MC_Syntax", "MC_Syntax_sim", replay="syntax-spans", simulate={"num": n, "depth": 500, "procs": 12, "seed_offset": 40},
             label="MC_Syntax_sim", timeout=7200)
     ctx.tlc("MC_Location", "MC_Location_" + ctx.tier, replay="snippet", coverage=False)
